@@ -443,7 +443,8 @@ def check_property(prop, tier, seed, jobs=None):
     if hasattr(mod, "standin") and not os.environ.get("PYVC_NO_STANDIN"):
         try:
             proxies.set_cx(None)
-            standin = mod.standin(tier, seed)
+            # a stand-in whose large bound costs seconds runs at that bound on every change (the quick tier of two properties missed defects their thorough tier found: F-56, F-57)
+            standin = mod.standin("thorough" if getattr(mod, "STANDIN_ALWAYS_THOROUGH", False) else tier, seed)
         except BaseException as e:
             crashes.append({"unit": "standin", "what": "%s: %s" % (type(e).__name__, e),
                             "tb": traceback.format_exc()[-2000:]})
